@@ -33,22 +33,26 @@ Digits9 == << <<49,50,51,52,53,54,55,56,57>>, <<57,57,57,57,57,57,57,57,57>>, <<
 Case(k, i, z, variant, basic, tform, digits) ==
     [k |-> k, i |-> i, z |-> z, variant |-> variant, basic |-> basic, tform |-> tform, digits |-> digits]
 
-FmtCases ==
-    { Case("fmt", [InstantOf(yy, mm, IF w = 1 THEN 1 ELSE IF w = 2 THEN DaysInMonth(yy, mm) ELSE 15,
-                             IF w = 1 THEN 0 ELSE IF w = 2 THEN 23 ELSE 12,
-                             IF w = 1 THEN 0 ELSE IF w = 2 THEN 59 ELSE 34,
-                             IF w = 1 THEN 0 ELSE IF w = 2 THEN 59 ELSE 56) EXCEPT !.us = ms * 1000],
-           0, "Z", FALSE, "hms", <<>>) : yy \in FmtYears, mm \in 1..12, w \in 1..3, ms \in Millis }
+\* case parameters (small tuples; the case record is computed from them when the case is published)
+FmtParams == {<<"fmt", yy, mm, w, ms>> : yy \in FmtYears, mm \in 1..12, w \in 1..3, ms \in Millis}
+FmtCase(q) ==
+    LET yy == q[2] mm == q[3] w == q[4] ms == q[5] IN
+    Case("fmt", [InstantOf(yy, mm, IF w = 1 THEN 1 ELSE IF w = 2 THEN DaysInMonth(yy, mm) ELSE 15,
+                           IF w = 1 THEN 0 ELSE IF w = 2 THEN 23 ELSE 12,
+                           IF w = 1 THEN 0 ELSE IF w = 2 THEN 59 ELSE 34,
+                           IF w = 1 THEN 0 ELSE IF w = 2 THEN 59 ELSE 56) EXCEPT !.us = ms * 1000],
+         0, "Z", FALSE, "hms", <<>>)
 ZoneOffsets == {z \in -1439..1439 : z % ZoneStep = 0 \/ z % 60 = 0}
 VariantsOf(z) == {"hh:mm", "hhmm"} \cup (IF z % 60 = 0 THEN {"hh"} ELSE {}) \cup (IF z = 0 THEN {"Z"} ELSE {})
 TForm(z, b) == LET r == (z + 1440 + b) % 3 IN IF r = 0 THEN "hm" ELSE IF r = 1 THEN "hms" ELSE "hmsf"
-ZoneCases ==
-    { Case("zone", IF TForm(x[1], x[2]) = "hm" THEN [Bases[x[2]] EXCEPT !.sod = (@ \div 60) * 60] ELSE Bases[x[2]],
-           x[1], x[3], x[4], TForm(x[1], x[2]), IF TForm(x[1], x[2]) = "hmsf" THEN <<50, 53>> ELSE <<>>) :
-      x \in { xx \in ZoneOffsets \X (1..NBases) \X {"hh:mm", "hhmm", "hh", "Z"} \X BOOLEAN : xx[3] \in VariantsOf(xx[1]) } }
-FracCases ==
-    { Case("frac", Bases[b], z, IF z = 0 THEN "Z" ELSE "hh:mm", basic, "hmsf", SubSeq(Digits9[p], 1, n)) :
-      b \in 1..2, z \in {0, 90, -345}, basic \in BOOLEAN, p \in 1..Len(Digits9), n \in 1..9 }
+ZoneParams == {q \in {"zone"} \X ZoneOffsets \X (1..NBases) \X {"hh:mm", "hhmm", "hh", "Z"} \X BOOLEAN : q[4] \in VariantsOf(q[2])}
+ZoneCase(q) ==
+    LET z == q[2] b == q[3] tf == TForm(z, b) IN
+    Case("zone", IF tf = "hm" THEN [Bases[b] EXCEPT !.sod = (@ \div 60) * 60] ELSE Bases[b],
+         z, q[4], q[5], tf, IF tf = "hmsf" THEN <<50, 53>> ELSE <<>>)
+FracParams == {"frac"} \X (1..2) \X {0, 90, -345} \X BOOLEAN \X (1..Len(Digits9)) \X (1..9)
+FracCase(q) == Case("frac", Bases[q[2]], q[3], IF q[3] = 0 THEN "Z" ELSE "hh:mm", q[4], "hmsf", SubSeq(Digits9[q[5]], 1, q[6]))
+CaseOf(q) == IF q[1] = "fmt" THEN FmtCase(q) ELSE IF q[1] = "zone" THEN ZoneCase(q) ELSE FracCase(q)
 
 \* the UTC instant a zone/frac case denotes: the base instant plus its fraction
 Denoted(cc) == IF cc.digits = <<>> THEN cc.i ELSE [cc.i EXCEPT !.us = FracMicros(cc.digits, 1, Len(cc.digits))]
@@ -62,8 +66,8 @@ TextOf(cc) ==
        \o (IF cc.variant = "Z" THEN <<cZ>> ELSE ZoneText(cc.z, cc.variant))
 
 \* (the invariants are evaluated on the published case, i.e. by TLC's workers and not while the initial states are enumerated)
-Init == phase = "gen" /\ c \in FmtCases \cup ZoneCases \cup FracCases
-Gen == phase = "gen" /\ phase' = "done" /\ c' = c
+Init == phase = "gen" /\ (c \in FmtParams \/ c \in ZoneParams \/ c \in FracParams)
+Gen == phase = "gen" /\ phase' = "done" /\ c' = CaseOf(c)
 Spec == Init /\ [][Gen]_vars
 
 -------------------------------------------------------------------------------
@@ -85,5 +89,5 @@ Out(cc) == IF cc.k = "fmt"
                  texts |-> [j \in 1..4 |-> [fmt |-> FmtOrder[j], t |-> FormatUTC(FmtOrder[j], cc.i),
                                             back |-> Seq3(ReadBackOf(FmtOrder[j], cc.i))]]]
            ELSE [k |-> "read", t |-> TextOf(cc), i |-> Seq3(Denoted(cc))]
-Emit == PrintT(ToJson(Out(c)))
+Emit == PrintT(ToJson(Out(c')))
 ===============================================================================
